@@ -15,6 +15,7 @@ import io
 import os
 import random
 import stat as statmod
+import weakref
 
 from . import sched
 from .tape import stable_hash
@@ -93,7 +94,7 @@ class SimFile:
         self.closed_by_gc = False
         self._dead = False
         self._written = 0
-        seam.open_table.append(self)
+        seam.open_table.append((weakref.ref(self), rel))
 
     # -- delegation
     def __getattr__(self, name):
@@ -475,7 +476,15 @@ class FsSeam:
 
     # ------------------------------------------------------------ checks
     def leaked_files(self):
-        return [f for f in self.open_table if not f.sim_closed]
+        """Files opened through the seam that are still referenced and open
+        (files dropped without close() are closed by their finaliser, as in
+        the real interpreter, and do not count once collected)."""
+        out = []
+        for ref, rel in self.open_table:
+            f = ref()
+            if f is not None and not f.sim_closed:
+                out.append(f)
+        return out
 
 
 # ---------------------------------------------------------------- world utils
